@@ -513,3 +513,24 @@ Proof.
   rewrite chunk_length, Hd. repeat split; [lia|].
   apply chunk_all_length. lia.
 Qed.
+
+Lemma drop_third_length c : forall data, length data = 3 * c -> length (drop_third data) = 2 * c.
+Proof.
+  induction c as [|c IH]; intros data H.
+  - destruct data; [reflexivity|simpl in H; lia].
+  - destruct data as [|a [|b [|z r]]]; simpl in H; try lia. simpl. rewrite (IH r) by lia. lia.
+Qed.
+
+Lemma stp_stride_rejected data n : length data mod 3 <> 0 -> float_source_load true data n = Raise DaeMalformed.
+Proof.
+  intro H. unfold float_source_load. destruct (Nat.eqb_spec (length data mod 3) 0); [contradiction|reflexivity].
+Qed.
+
+Lemma stp_accepted data n src : float_source_load true data n = Ok src ->
+  s_ncomp src = 2 /\ s_len src * 3 = length data.
+Proof.
+  unfold float_source_load. destruct (Nat.eqb_spec (length data mod 3) 0) as [E|]; [|discriminate].
+  intro H. apply stride_accepted in H. destruct H as [H1 [H2 _]]. split; [exact H1|].
+  apply Nat.mod_divides in E; [|lia]. destruct E as [c Hc].
+  rewrite (drop_third_length c _ Hc) in H2. lia.
+Qed.
